@@ -151,11 +151,11 @@ def ws_symbols(i1: int, q: int, qcase: int) -> bool:
     """workspace/symbol: exactly the top-level units and module members whose name contains the query
     (case-insensitively), sorted by name; query = every substring (length 1..3) of the declared names, each
     in lower / upper / mixed case, plus non-matching strings
-    pre: 0 <= i1 < NE and 0 <= q <= 40 and 0 <= qcase <= 2 and (i1 + q) % NPART == PART
+    pre: 0 <= i1 < NE and 0 <= q <= 60 and 0 <= qcase <= 2 and (i1 + q) % NPART == PART
     post: _
     """
     tick("ws_symbols")
-    i1, q, qcase = conc(i1, 0, NE - 1), conc(q, 0, 40), conc(qcase, 0, 2)
+    i1, q, qcase = conc(i1, 0, NE - 1), conc(q, 0, 60), conc(qcase, 0, 2)
     ok = True
     with NoTracing():
         p = build(i1, -1, 0, True, 0 if q % 2 else 2, False, 2)
@@ -170,7 +170,8 @@ def ws_symbols(i1: int, q: int, qcase: int) -> bool:
         srv = ws.reset(SRV, {PATH: "\n".join(lines) + "\n", ws.ROOT + "/m2.f90": "\n".join(l2) + "\n"})
         members = [("m1", None), ("mv1", "m1"), ("t1", "m1"), ("t3", "m1")] + ([("g2", "m1")] if q % 2 else []) + [("s1", "m1"), ("s2", "m1"), ("s7", None), ("m2", None), ("Mv1x", "m2"), ("zeta", "m2"), ("mv1", "m2")]
         names = sorted({n[0].lower()[i:i + k] for n in members for k in (1, 2, 3) for i in range(len(n[0]) - k + 1)})
-        queries = names + ["qq", "m1x", "#", "s9"]
+        # regex metacharacters are ordinary characters of a query: none of them occurs in a name
+        queries = names + ["qq", "m1x", "#", "s9", ".", "$", "^m", "m*", "[a-z]", "m.1", "m1|m2", "t1(", "\\w", "s?"]
         if q >= len(queries):
             return True
         query = queries[q]
